@@ -538,6 +538,13 @@ var AncestorLoop = errors.New("ancestor loop detected")
 
 // DoAncestors calls the given function on this location and all of its ancestors in depth-first order.
 func (loc *Location) DoAncestors(ctx *Context, fn func(*Location) error) error {
+	return loc.doAncestors(ctx, fn, nil)
+}
+
+// doAncestors does the work for DoAncestors.  The given path lists
+// the names of the locations between the starting location and this
+// one, which is how a parent chain that loops back is detected.
+func (loc *Location) doAncestors(ctx *Context, fn func(*Location) error, path []string) error {
 
 	parents, err := loc.getParents(ctx)
 	if err != nil {
@@ -558,6 +565,11 @@ func (loc *Location) DoAncestors(ctx *Context, fn func(*Location) error) error {
 				// (yet) doing that.
 				return AncestorLoop
 			}
+			for _, name := range path {
+				if parent == name {
+					return AncestorLoop
+				}
+			}
 
 			// I could just remember how my father used to
 			// say that the reason for living was to get
@@ -569,7 +581,7 @@ func (loc *Location) DoAncestors(ctx *Context, fn func(*Location) error) error {
 			if err != nil {
 				return err
 			}
-			if err = p.DoAncestors(ctx, fn); err != nil {
+			if err = p.doAncestors(ctx, fn, append(path, loc.Name)); err != nil {
 				return err
 			}
 		}
